@@ -45,6 +45,41 @@ def mutations(segs, rnd, n_random):
     out.append(('reorder', segs[:5] + [segs[6], segs[5]] + segs[7:]) if n > 7 else ('identity3', list(segs)))
     out.append(('SE bad element', [('SE*%s*%s*X' % tuple(s.split('*')[1:3]) if s.startswith('SE*') and len(s.split('*')) >= 3 else s) for s in segs]))
     out.append(('ST02 too long', [(s + '99999999' if s.startswith('ST*') else s) for s in segs]))
+    # faults confined to the group header's own elements (nothing else wrong)
+    i = idx_of('GS*')
+    if i is not None:
+        parts = segs[i].split('*')
+        if len(parts) > 5:
+            out.append(('GS04 not a date', segs[:i] + ['*'.join(parts[:4] + ['20041328'] + parts[5:])] + segs[i + 1:]))
+            out.append(('GS05 not a time', segs[:i] + ['*'.join(parts[:5] + ['2561'] + parts[6:])] + segs[i + 1:]))
+    i = idx_of('ST*')
+    if i is not None:
+        parts = segs[i].split('*')
+        if len(parts) > 2:
+            out.append(('ST02 with a blank inside', segs[:i] + ['*'.join(parts[:2] + ['0 1'] + parts[3:])] + segs[i + 1:]))
+    # composites cut short / with an empty leading or trailing component
+    ci = [k for k, sg in enumerate(segs) if ':' in sg and not sg.startswith('ISA')]
+    for k in ci[:3]:
+        parts = segs[k].split('*')
+        j = [x for x in range(len(parts)) if ':' in parts[x]][0]
+        comp = parts[j].split(':')
+        for lab, c2 in (('cut after the first component', comp[:1] + ['']), ('cut to two components', comp[:2]),
+                        ('first component emptied', [''] + comp[1:]), ('last component emptied', comp[:-1] + [''])):
+            out.append(('composite %s in %s' % (lab, parts[0]), segs[:k] + ['*'.join(parts[:j] + [':'.join(c2)] + parts[j + 1:])] + segs[k + 1:]))
+    # every transaction set damaged in all the ways a trailer can be (many distinct set-level codes at once)
+    s2, first02 = [], None
+    for sg in segs:
+        parts = sg.split('*')
+        if parts[0] == 'ST' and len(parts) > 2:
+            if first02 is None:
+                first02 = parts[2]
+            s2.append('*'.join(parts[:2] + [first02] + parts[3:]))
+            s2.append('ZZZ*1')
+        elif parts[0] == 'SE' and len(parts) > 2:
+            s2.append('SE*A7*%sXXXXXXXX' % parts[2])
+        else:
+            s2.append(sg)
+    out.append(('every set: repeated ST02, unknown segment, non-numeric SE01, over-long SE02', s2))
     for k in range(n_random):
         s2 = list(segs)
         for _ in range(rnd.randint(1, 3)):
@@ -125,6 +160,7 @@ def bounded_pipeline(seed, tier):
             pass
         except Exception as e:
             failures.append({'input': {'text': t[:30]}, 'detail': 'C07: raised %s: %s' % (type(e).__name__, e)})
+    identity_ok = {}
     for name, src in docs:
         segs = _segments(src)
         for label, s2 in mutations(segs, rnd, n_random):
@@ -171,6 +207,20 @@ def bounded_pipeline(seed, tier):
                 except Exception as e:
                     problems.append('C06: acknowledgement does not parse: %s: %s' % (type(e).__name__, e))
                     asegs = []
+                # C06: fed back to the validator the acknowledgement is accepted, except for values echoed from the input
+                if (w997, whtml, wxml) == (True, False, False) and not problems:
+                    try:
+                        v2, errs2 = _validate_recording(ack)
+                        bad = [e for e in errs2 if not (e[0] == 'ele' and _echo_refdes(e[3]))]
+                        if v2 is not True and bad:
+                            problems.append('C06: the acknowledgement fed back to the validator is rejected for more than echoed values: %r' % (
+                                [(e[0], e[1], (e[2] or '')[:60]) for e in bad[:3]],))
+                        if v2 is True and errs2:
+                            problems.append('C06: feed-back verdict True although errors were recorded')
+                    except pyx12.errors.EngineError as e:
+                        problems.append('C06: the acknowledgement fed back selects no map: %s' % str(e)[:80])
+                    except Exception as e:
+                        problems.append('C06: validating the acknowledgement raised %s: %s' % (type(e).__name__, str(e)[:80]))
                 # C05: verdict vs acknowledgement codes; group totals vs recount
                 ak5 = [s.get_value('01') for s in asegs if s.get_seg_id() in ('AK5', 'IK5')]
                 ak9 = [s for s in asegs if s.get_seg_id() == 'AK9']
@@ -179,6 +229,21 @@ def bounded_pipeline(seed, tier):
                     all(s.get_value('04') == 'A' for s in ta1)
                 if verdict and not all_accept:
                     problems.append('C05: verdict True but the acknowledgement rejects something (AK5 %r)' % (ak5,))
+                # the converse, where it is owed: the interchange level is untouched and clean (so every error lies inside a group,
+                # where AK9/AK5 must show it) - interchange-level errors are only acknowledged by a TA1 when ISA14 asks for one
+                isa_same = [x for x in s2 if x[:3] in ('ISA', 'IEA')] == [x for x in segs if x[:3] in ('ISA', 'IEA')] and \
+                    len([x for x in s2 if x.startswith('GS*')]) == len([x for x in segs if x.startswith('GS*')]) and \
+                    len([x for x in s2 if x.startswith('GE*')]) == len([x for x in segs if x.startswith('GE*')])
+                if verdict is False and all_accept and isa_same and s2[-1].startswith('IEA') and identity_ok.get(name) and (ak5 or ak9):
+                    try:
+                        _, serrs = read_envelope_errors(text)
+                    except Exception:
+                        serrs = [('isa',)]
+                    if not [e for e in serrs if e[0] == 'isa']:
+                        problems.append('C05: verdict False but the acknowledgement accepts every group and set (AK9 %r AK5 %r)' % (
+                            [s.get_value('01') for s in ak9], ak5))
+                if label == 'identity' and (w997, whtml, wxml) == (True, False, False):
+                    identity_ok[name] = bool(verdict) and all_accept
                 for s in ak9:
                     try:
                         recv, acc = int(s.get_value('03')), int(s.get_value('04'))
@@ -200,6 +265,44 @@ def bounded_pipeline(seed, tier):
     return {'function': 'x12n_document (walker, map validation, error tree, 997/999/HTML/XML sinks)', 'evaluations': n,
             'bound': '%d fixtures x mutation catalogue (+%d seeded random mutations each) x sink subsets, seed %d' % (len(docs), n_random, seed),
             'failures': list(failures)[:40]}
+
+
+ECHO_REFDES = ('ISA05', 'ISA06', 'ISA07', 'ISA08', 'GS02', 'GS03', 'AK101', 'AK102', 'AK103', 'AK201', 'AK202', 'AK203', 'AK301', 'AK303', 'AK404', 'IK301', 'IK303', 'IK404', 'CTX01', 'CTX02')
+
+
+def _echo_refdes(refdes):
+    """positions of the acknowledgement that hold a value copied from the input"""
+    return bool(refdes) and refdes.split('-')[0] in ECHO_REFDES
+
+
+def _validate_recording(text):
+    """run the real validator on `text` and record every error it reports to its error handler (the 997 writer is not used for
+    a functional acknowledgement, so the errors are observed at err_handler's reporting methods) -> (verdict, [(kind, code, message, refdes)])"""
+    import io
+    import pyx12.error_handler as EH
+    import pyx12.x12n_document
+    import pyx12.params
+    rec = []
+    saved = {}
+
+    def wrap(kind, name):
+        orig = getattr(EH.err_handler, name)
+        saved[name] = orig
+
+        def f(self, err_cde, err_str, *a, **k):
+            refdes = (a[1] if len(a) > 1 else k.get('refdes')) if kind == 'ele' else None
+            rec.append((kind, err_cde, err_str, refdes))
+            return orig(self, err_cde, err_str, *a, **k)
+        setattr(EH.err_handler, name, f)
+    for kind, name in (('isa', 'isa_error'), ('gs', 'gs_error'), ('st', 'st_error'), ('seg', 'seg_error'), ('ele', 'ele_error')):
+        wrap(kind, name)
+    try:
+        v = pyx12.x12n_document.x12n_document(param=pyx12.params.params(), src_file=io.StringIO(text), fd_997=None, fd_html=None,
+                                              fd_xmldoc=None, xslt_files=None)
+    finally:
+        for name, orig in saved.items():
+            setattr(EH.err_handler, name, orig)
+    return v, rec
 
 
 def _only(tag, seed, tier):
@@ -286,7 +389,12 @@ def bounded_reencode(seed, tier):
                         diff = [(a, b) for a, b in zip(base[1], got[1]) if a != b][:2]
                         only_sep = got[0] == base[0] and len(got[1]) == len(base[1]) and \
                             all(a.replace(':', '').replace(sub, '') == b.replace(':', '').replace(sub, '') for a, b in zip(base[1], got[1]))
-                        kind = 'an echoed composite value keeps the input component separator' if only_sep else 'results differ'
+                        # K11 is the echo of an INPUT VALUE that holds more components than the map allows; any other dependence on the
+                        # component separator (e.g. the acknowledgement's own composites) is a different violation
+                        k11 = only_sep and lab.startswith('extra component') and all(
+                            a == b or (':::' in a and a[:3] in ('AK2', 'AK4', 'IK4', 'AK3')) for a, b in zip(base[1], got[1]))
+                        kind = 'an echoed composite value keeps the input component separator' if k11 else \
+                            ('the acknowledgement body depends on the input component separator' if only_sep else 'results differ')
                         sig = (kind, lab)
                         if sig not in seen_sigs:
                             seen_sigs.add(sig)
